@@ -80,9 +80,15 @@ def gen_bytes(rng):
     return bytes(rng.choice([0, 10, 13, 34, 39, 92, 97, 127, 128, 255, rng.randrange(256)]) for _ in range(n))
 
 
+SPECIAL_COMPLEX = [complex(math.nan, math.inf), complex(math.inf, math.nan), complex(-math.inf, math.nan), complex(math.nan, -math.inf),
+                   complex(math.nan, math.nan), complex(math.nan, 0.0), complex(0.0, math.nan), complex(math.inf, -math.inf),
+                   complex(1e308, 1e308), complex(1.7976931348623157e308, -1.7976931348623157e308), complex(-1.5e308, 1.2e308),
+                   complex(-0.0, -0.0), complex(5e-324, -5e-324), complex(math.inf, 1e308), complex(0.0, 1.7976931348623157e308)]
+
+
 def gen_complex(rng, nan_ok=True):
     while True:
-        z = complex(gen_float(rng), gen_float(rng))
+        z = rng.choice(SPECIAL_COMPLEX) if rng.random() < 0.2 else complex(gen_float(rng), gen_float(rng))
         if nan_ok or not (math.isnan(z.real) or math.isnan(z.imag)):
             return z
 
